@@ -845,11 +845,14 @@ class C18(core.Check):
                         }
                     )
                     break
-            elif clear:
+            else:
+                # same points, but the sides of the result are not the sides of the block (e.g. top turned by 90 degrees
+                # against bottom): never acceptable in a clear view; in dubious views of warped blocks a known finding
                 out.append(
                     {
-                        "site": site + "block-restructured-in-clear-view",
-                        "what": f"numbering {r['num']}: result {idx} is not one of the 48 relabellings of the block",
+                        "site": site + ("block-restructured-in-clear-view" if clear else "block-restructured"),
+                        "what": f"numbering {r['num']}: result {idx} is not one of the 48 relabellings of the block "
+                        "(its sides are not the sides of the block)",
                         "observed": idx,
                     }
                 )
